@@ -286,7 +286,7 @@ func executeRun(spec *c14sim.RunSpec, pool []*c14sim.Key, recordHot bool) *runOu
 		}
 	}
 	// shared map objects of this run
-	shared := map[int]map[string]string{}
+	shared := map[int]*c14sim.Shared{}
 	sharedSnap := map[int]string{}
 	sharedUsers := map[int]map[int]bool{}
 	keyUsers := map[int]map[int]bool{}
@@ -296,10 +296,10 @@ func executeRun(spec *c14sim.RunSpec, pool []*c14sim.Key, recordHot bool) *runOu
 				keyUsers[cs.Key] = map[int]bool{}
 			}
 			keyUsers[cs.Key][ti] = true
-			if cs.Form == "shared" {
+			if c14sim.IsSharedForm(cs.Form) {
 				if shared[cs.Shared] == nil {
-					shared[cs.Shared] = pool[cs.Key].ParamMap()
-					sharedSnap[cs.Shared] = c14sim.MapSnapshot(shared[cs.Shared])
+					shared[cs.Shared] = c14sim.NewShared(pool[cs.Key], cs.Form == "sharedzero")
+					sharedSnap[cs.Shared] = c14sim.MapSnapshot(shared[cs.Shared].Map)
 					sharedUsers[cs.Shared] = map[int]bool{}
 				}
 				sharedUsers[cs.Shared][ti] = true
@@ -324,6 +324,7 @@ func executeRun(spec *c14sim.RunSpec, pool []*c14sim.Key, recordHot bool) *runOu
 		ts := spec.Tasks[ti]
 		bodies[ti] = func(ti int) {
 			jr := spec.Seed*0x9e3779b97f4a7c15 + uint64(ti)*0xbf58476d1ce4e5b9 + 1
+			mine := c14sim.NewOwn() // this caller's own options value, reused between its calls
 			for ci, cs := range ts.Calls {
 				// "time passes" between calls (clock jump fault): only matters if the tree has a clock
 				jr ^= jr << 13
@@ -334,7 +335,11 @@ func executeRun(spec *c14sim.RunSpec, pool []*c14sim.Key, recordHot bool) *runOu
 				}
 				k := pool[cs.Key]
 				y0 := zzsimrt.TaskYields()
-				r, mv, again := c14sim.DoCallKeep(k, cs.Form, shared[cs.Shared], hooks)
+				sh := shared[cs.Shared]
+				if cs.Form == "reused" {
+					sh = mine
+				}
+				r, mv, again := c14sim.DoCallKeep(k, cs.Form, sh, hooks)
 				perTask[ti] = append(perTask[ti], c14sim.CallResult{Task: ti, Call: ci, Key: cs.Key, Form: cs.Form, Result: r, MapViolation: mv, Yields: zzsimrt.TaskYields() - y0, Again: again})
 			}
 		}
@@ -383,7 +388,11 @@ func executeRun(spec *c14sim.RunSpec, pool []*c14sim.Key, recordHot bool) *runOu
 	}
 	sort.Ints(ids)
 	for _, id := range ids {
-		if now := c14sim.MapSnapshot(shared[id]); now != sharedSnap[id] {
+		now := c14sim.MapSnapshot(shared[id].Map)
+		if viaOpts := c14sim.MapSnapshot(shared[id].Opts.Parameters); viaOpts != now {
+			now = "options value now holds " + viaOpts
+		}
+		if now != sharedSnap[id] {
 			out.violation = &c14sim.Violation{Class: "caller-map-modified", Detail: fmt.Sprintf("shared parameter map %d at end of run: before %s after %s", id, sharedSnap[id], now)}
 			return out
 		}
